@@ -670,7 +670,7 @@ pub fn interesting() {
     let _p = alloc::pause();
     let mut g = lock();
     if let Some(st) = g.as_mut() {
-        if st.rng.chance(1, 2) {
+        if !st.cfg.call_granular && st.rng.chance(1, 2) {
             st.force_switch = true;
         }
     }
@@ -1008,7 +1008,10 @@ impl vh::Hook for SimHook {
                     st.stats.wakes += 1;
                 }
             }
-            if st.cfg.strategy == Strategy::Targeted && st.rng.chance(1, 2) {
+            // (not in call-granular mode: there the schedule must not depend on how many atomic
+            // operations a call performs internally, C13 twin runs)
+            if st.cfg.strategy == Strategy::Targeted && !st.cfg.call_granular && st.rng.chance(1, 2)
+            {
                 st.force_switch = true;
             }
         }
